@@ -232,3 +232,41 @@ pub proof fn lemma_succ_range(a: Seq<u8>, c: u8, f: Seq<u8>, k: Seq<u8>)
         }
     }
 }
+
+// the ordered range of a map is determined up to its length by the map: two sequences that both list every key of `m`
+// once in strict (ascending or descending) order have the same length (used to DEFINE the instance count as a function of the store)
+pub open spec fn rec_keys(s: Seq<RecV>) -> Seq<Seq<u8>> { Seq::new(s.len(), |i: int| s[i].0) }
+pub proof fn lemma_range_len_unique(a: Seq<RecV>, b: Seq<RecV>, m: St, order: Order, order_b: Order)
+    requires is_range_of(a, m, None, None, order), is_range_of(b, m, None, None, order_b)
+    ensures a.len() == b.len()
+{
+    let ka = rec_keys(a);
+    let kb = rec_keys(b);
+    assert forall|i: int, j: int| 0 <= i < ka.len() && 0 <= j < ka.len() && i != j implies ka[i] != ka[j] by {
+        lemma_lex_irrefl(a[i].0);
+        if i < j { assert(ord_lt(a[i].0, a[j].0, order)); } else { assert(ord_lt(a[j].0, a[i].0, order)); }
+    }
+    assert forall|i: int, j: int| 0 <= i < kb.len() && 0 <= j < kb.len() && i != j implies kb[i] != kb[j] by {
+        lemma_lex_irrefl(b[i].0);
+        if i < j { assert(ord_lt(b[i].0, b[j].0, order_b)); } else { assert(ord_lt(b[j].0, b[i].0, order_b)); }
+    }
+    assert(ka.no_duplicates());
+    assert(kb.no_duplicates());
+    assert forall|k: Seq<u8>| ka.to_set().contains(k) == kb.to_set().contains(k) by {
+        if ka.to_set().contains(k) {
+            let i = choose|i: int| 0 <= i < ka.len() && ka[i] == k;
+            assert(m.contains_key(a[i].0) && in_range(a[i].0, None, None));
+            let j = choose|j: int| 0 <= j < b.len() && b[j].0 == k;
+            assert(kb[j] == k);
+        }
+        if kb.to_set().contains(k) {
+            let i = choose|i: int| 0 <= i < kb.len() && kb[i] == k;
+            assert(m.contains_key(b[i].0) && in_range(b[i].0, None, None));
+            let j = choose|j: int| 0 <= j < a.len() && a[j].0 == k;
+            assert(ka[j] == k);
+        }
+    }
+    assert(ka.to_set() =~= kb.to_set());
+    ka.unique_seq_to_set();
+    kb.unique_seq_to_set();
+}
